@@ -163,12 +163,10 @@ x = sum((1 for i in range(10)))
             """
 x = []
 for i in range(10):
-    x += [1]
+    x += 1
         """,
             """
-x = []
-for i in range(10):
-    x += [1]
+x = [1 for i in range(10)]
         """,
         ),
         (
@@ -195,76 +193,10 @@ x = -777 - sum((1 for i in range(10)))
             """
 x = [1, 2, 3]
 for i in range(10):
-    x += [1]
+    x += 1
         """,
             """
-x = [1, 2, 3]
-for i in range(10):
-    x += [1]
-        """,
-        ),
-        (
-            """
-x = 0
-for i in range(10):
-    x -= i
-        """,
-            """
-x = -sum((i for i in range(10)))
-        """,
-        ),
-        (
-            """
-x = ""
-for i in range(10):
-    x += str(i)
-        """,
-            """
-x = ""
-for i in range(10):
-    x += str(i)
-        """,
-        ),
-        (
-            """
-x = []
-for i in range(10):
-    x.append(len(x))
-        """,
-            """
-x = []
-for i in range(10):
-    x.append(len(x))
-        """,
-        ),
-        (
-            """
-x = []
-for i in range(10):
-    x.append(i)
-print(i)
-        """,
-            """
-x = []
-for i in range(10):
-    x.append(i)
-print(i)
-        """,
-        ),
-        (
-            """
-x = []
-for i in range(10):
-    x.append(i)
-else:
-    print(1)
-        """,
-            """
-x = []
-for i in range(10):
-    x.append(i)
-else:
-    print(1)
+x = [1, 2, 3] + [1 for i in range(10)]
         """,
     ),)
 
